@@ -155,19 +155,21 @@ def r01_1(chk):
     # rotated matrix: evaluate again with q's kept symbolic
     stq = [st for st in fn.body if isinstance(st, ast.Assign) and isinstance(st.targets[0], ast.Name) and st.targets[0].id == 'q11L']
     chk.need(stq, 'Lamina.rebuild: q11L vanished')
-    env2 = {k: v for k, v in env.items() if k in ('cost', 'sint', 'cos2', 'cos3', 'cos4', 'sin2', 'sin3', 'sin4', 'sincos')}
-    for k in want_q:
-        env2[k] = Rat(S(k))
-    env2['q16'] = env2['q26'] = Rat(P())
-    started = False
+    # second pass over the whole body, in order, with the plane-stress constants kept symbolic (whatever temporaries the
+    # code introduces between them and the rotated entries are followed)
+    env2 = {}
     for st in fn.body:
-        if st is stq[0]:
-            started = True
-        if started and isinstance(st, ast.Assign) and isinstance(st.targets[0], ast.Name):
+        if isinstance(st, ast.Assign) and len(st.targets) == 1 and isinstance(st.targets[0], ast.Name):
+            nm = st.targets[0].id
+            if nm in want_q:
+                env2[nm] = Rat(S(nm))
+                continue
             try:
-                env2[st.targets[0].id] = from_ast(st.value, env2, leaf, ring=Rat)
+                env2[nm] = from_ast(st.value, env2, lambda n_: _leaf_env(n_, env2), ring=Rat)
             except Exception:
-                pass
+                env2.pop(nm, None)
+    for k in want_q:
+        env2.setdefault(k, Rat(S(k)))
     orc = rotation_oracle(cname, sname)
     ql = [st for st in fn.body if isinstance(st, ast.Assign) and norm(st.targets[0]) == 'self.QL']
     chk.need(len(ql) == 1 and isinstance(ql[0].value, ast.Call) and ql[0].value.args and isinstance(ql[0].value.args[0], ast.List),
@@ -192,6 +194,82 @@ def r01_1(chk):
                    sample='QL[%d,%d] == %r (mod c^2+s^2=1)' % (i, j, x) if (i, j) in ((0, 0), (0, 2), (3, 4)) else None)
             n += 1
     chk.floor('R01.1 QL entries', n, 25)
+
+
+def block_layout(stmts):
+    """name -> (rows, cols, [(row0, col0, source slice)]) for arrays built from 2-D slices of other arrays by np.concatenate
+    or by filling a np.zeros / np.empty array through slices; anything else makes the name unknown (absent)"""
+    env = {}
+
+    def key(t):
+        return dotted(t) if isinstance(t, (ast.Name, ast.Attribute)) else None
+
+    def const(n):
+        return n.value if isinstance(n, ast.Constant) and isinstance(n.value, int) else None
+
+    def slice2(sub):
+        sl = sub.slice
+        if isinstance(sl, ast.Tuple) and len(sl.elts) == 2 and all(isinstance(e, ast.Slice) and e.step is None for e in sl.elts):
+            b = [(const(e.lower) if e.lower is not None else 0, const(e.upper)) for e in sl.elts]
+            if all(x is not None and y is not None for x, y in b):
+                return b
+        return None
+
+    def value(e):
+        k = key(e)
+        if k is not None and k in env:
+            return env[k]
+        if isinstance(e, ast.Subscript) and key(e.value):
+            b = slice2(e)
+            if b:
+                (r0, r1), (c0, c1) = b
+                base = env.get(key(e.value))
+                if base is None:
+                    return (r1 - r0, c1 - c0, [(0, 0, '%s[%d:%d,%d:%d]' % (key(e.value), r0, r1, c0, c1))])
+                return None
+        if isinstance(e, ast.Call):
+            f = dotted(e.func)
+            args = {k_.arg: k_.value for k_ in e.keywords}
+            if f in ('np.zeros', 'np.empty', 'zeros', 'empty'):
+                sh = e.args[0] if e.args else args.get('shape')
+                if isinstance(sh, (ast.Tuple, ast.List)) and len(sh.elts) == 2 and all(const(x) is not None for x in sh.elts):
+                    return (const(sh.elts[0]), const(sh.elts[1]), [])
+            if f == 'np.concatenate':
+                seq = e.args[0] if e.args else args.get('arrays')
+                ax = e.args[1] if len(e.args) > 1 else args.get('axis')
+                ax = const(ax) if ax is not None else 0
+                if isinstance(seq, (ast.List, ast.Tuple)) and ax in (0, 1):
+                    parts = [value(x) for x in seq.elts]
+                    if all(p is not None for p in parts):
+                        out, off = [], 0
+                        for (r, c, bl) in parts:
+                            out += [(r0 + (off if ax == 0 else 0), c0 + (off if ax == 1 else 0), src) for r0, c0, src in bl]
+                            off += r if ax == 0 else c
+                        other = {(p[1] if ax == 0 else p[0]) for p in parts}
+                        if len(other) == 1:
+                            return (off, other.pop(), out) if ax == 0 else (other.pop(), off, out)
+        return None
+    for st in stmts:
+        if not isinstance(st, ast.Assign) or len(st.targets) != 1:
+            continue
+        t = st.targets[0]
+        if key(t):
+            v = value(st.value)
+            if v is not None:
+                env[key(t)] = (v[0], v[1], list(v[2]))
+            else:
+                env.pop(key(t), None)
+        elif isinstance(t, ast.Subscript) and key(t.value) in env:
+            b = slice2(t)
+            v = value(st.value)
+            if b and v is not None and (b[0][1] - b[0][0], b[1][1] - b[1][0]) == (v[0], v[1]):
+                r, c, bl = env[key(t.value)]
+                # blocks overwritten by this store disappear
+                bl = [x for x in bl if not (b[0][0] <= x[0] < b[0][1] and b[1][0] <= x[1] < b[1][1])]
+                env[key(t.value)] = (r, c, bl + [(r0 + b[0][0], c0 + b[1][0], src) for r0, c0, src in v[2]])
+            else:
+                env.pop(key(t.value), None)
+    return env
 
 
 def r01_2(chk):
@@ -252,12 +330,21 @@ def r01_2(chk):
                sample='%s += %r' % (k, w))
     chk.ob('R01.2', env.get('h0') == H0 + T, LAMINATE, fname, 'running surface advances by the ply thickness', got=repr(env.get('h0')))
     chk.ob('R01.2', set(acc) == set(want), LAMINATE, fname, 'only A, B, D accumulated', got=sorted(acc))
-    # slices and block layout
+    # slices and block layout: a small block-matrix interpretation of the statements after the loop (np.concatenate and
+    # pre-allocated arrays filled by slices are the same thing to it)
     txt = [norm(st) for st in fn.body if isinstance(st, ast.Assign)]
-    for w in ('self.A=self.A_general[0:3,0:3]', 'self.B=self.B_general[0:3,0:3]', 'self.D=self.D_general[0:3,0:3]', 'self.E=self.A_general[3:5,3:5]',
-              'conc1=np.concatenate([self.A,self.B],axis=1)', 'conc2=np.concatenate([self.B,self.D],axis=1)',
-              'self.ABD=np.concatenate([conc1,conc2],axis=0)', 'self.ABDE[0:6,0:6]=self.ABD', 'self.ABDE[6:8,6:8]=self.E'):
-        chk.ob('R01.2', w in txt, LAMINATE, fname, 'layout: ' + w.split('=')[0], expected=w, got=[t for t in txt if t.startswith(w.split('=')[0] + '=')])
+    lay = block_layout(fn.body[fn.body.index(lp) + 1:])
+    want_lay = {'self.A': (3, 3, [(0, 0, 'self.A_general[0:3,0:3]')]), 'self.B': (3, 3, [(0, 0, 'self.B_general[0:3,0:3]')]),
+                'self.D': (3, 3, [(0, 0, 'self.D_general[0:3,0:3]')]), 'self.E': (2, 2, [(0, 0, 'self.A_general[3:5,3:5]')]),
+                'self.ABD': (6, 6, [(0, 0, 'self.A_general[0:3,0:3]'), (0, 3, 'self.B_general[0:3,0:3]'), (3, 0, 'self.B_general[0:3,0:3]'), (3, 3, 'self.D_general[0:3,0:3]')]),
+                'self.ABDE': (8, 8, [(0, 0, 'self.A_general[0:3,0:3]'), (0, 3, 'self.B_general[0:3,0:3]'), (3, 0, 'self.B_general[0:3,0:3]'), (3, 3, 'self.D_general[0:3,0:3]'),
+                                     (6, 6, 'self.A_general[3:5,3:5]')])}
+    for k, w in want_lay.items():
+        g = lay.get(k)
+        okl = g is not None and g[0] == w[0] and g[1] == w[1] and sorted(g[2]) == sorted(w[2])
+        chk.ob('R01.2', okl, LAMINATE, fname, 'layout: ' + k, expected='%dx%d blocks %s (zero elsewhere)' % w, got=g,
+               detail='' if okl else 'the laminate matrix is not [[A, B], [B, D]] (+ the transverse-shear block in rows/columns 6..7)',
+               sample='%s = %dx%d %s' % (k, w[0], w[1], w[2]))
     zeros = [t for t in txt if t.startswith('self.A_general=') or t.startswith('self.B_general=') or t.startswith('self.D_general=')]
     chk.ob('R01.2', sorted(zeros) == sorted('self.%s_general=np.zeros([5,5],dtype=DOUBLE)' % x for x in 'ABD'), LAMINATE, fname,
            'accumulators start from zero on every call', got=zeros)
